@@ -57,7 +57,7 @@ def cmd_inspect(args):
         print()
         return  # Don't try to parse as CSV
 
-    with open(filepath, 'r', encoding='utf-8') as f:
+    with open(filepath, 'r', encoding='utf-8-sig') as f:
         # Detect if it's a valid CSV
         try:
             sample = f.read(4096)
@@ -240,7 +240,7 @@ def _detect_file_format(filepath):
         'sample_lines': []
     }
 
-    with open(filepath, 'r', encoding='utf-8') as f:
+    with open(filepath, 'r', encoding='utf-8-sig') as f:
         sample = f.read(8192)
         lines = sample.split('\n')[:20]
         result['sample_lines'] = lines
@@ -348,7 +348,7 @@ def _analyze_amount_patterns(filepath, amount_col, has_header=True, delimiter=No
             return None
 
     try:
-        with open(filepath, 'r', encoding='utf-8') as f:
+        with open(filepath, 'r', encoding='utf-8-sig') as f:
             if delimiter and delimiter.startswith('regex:'):
                 # Regex-based parsing
                 pattern = re_mod.compile(delimiter[6:])
@@ -466,7 +466,7 @@ def _analyze_columns(filepath, has_header=True, max_rows=100):
     columns = []
 
     try:
-        with open(filepath, 'r', encoding='utf-8') as f:
+        with open(filepath, 'r', encoding='utf-8-sig') as f:
             reader = csv.reader(f)
 
             if has_header:
@@ -700,7 +700,7 @@ def _analyze_amount_column_detailed(filepath, amount_col, desc_col=1, has_header
             return None
 
     try:
-        with open(filepath, 'r', encoding='utf-8') as f:
+        with open(filepath, 'r', encoding='utf-8-sig') as f:
             reader = csv.reader(f)
             if has_header:
                 headers = next(reader, None)
